@@ -100,7 +100,7 @@ def check(chk):
     s = src(nts)
     chk.judge('replicas_remaining == 0 or replicas_this_dc == hosts_this_dc' in s and 'if full_replicas > 0' in s, 'C26.bound', nts,
               'NTS: per DC stop at RF or when every host of the DC is a replica; DCs with RF 0 are skipped', 'NTS stop condition changed')
-    chk.judge('token_offset_index - len(token_offsets)' in s and 'range(index, index + num_tokens)' in s, 'C26.bound', nts, 'NTS walks each DC ring once with wrap-around', 'NTS DC ring walk changed')
+    chk.judge(('token_offset_index - len(token_offsets)' in s or 'token_offset_index -= len(token_offsets)' in s) and 'range(index, index + num_tokens)' in s, 'C26.bound', nts, 'NTS walks each DC ring once with wrap-around', 'NTS DC ring walk changed')
     decs = [n for n in body_walk(nts) if isinstance(n, ast.AugAssign) and src(n.target) == 'replicas_remaining' and isinstance(n.op, ast.Sub)]
     apps = [n for n in body_walk(nts) if isinstance(n, ast.Call) and src(n.func) == 'replicas.append']
     chk.judge(len(decs) == len(apps) == 2, 'C26.bound', nts, 'every NTS append decrements replicas_remaining', 'appends (%d) and decrements (%d) disagree' % (len(apps), len(decs)))
